@@ -271,4 +271,38 @@ seq(prop="C10", lean_targets=["TransportVerif.Props.C10"], pkg="packetio", run="
                        "udp.Conn is fed through listener.dispatchMsg (the read loop's own path) instead of the kernel socket"],
     assumptions=["one Read in flight at a time; timer callbacks are settled before each observation (their interleavings are C09's subject)"])
 
+seq(prop="C11", lean_targets=["TransportVerif.Props.C11"], pkg="udp", run="^TestVerifListener$", component="listener",
+    files=["listener_h_test.go"], quick_n=3000, thorough_n=100000,
+    nontrivial=["creates-conn", "fresh-after-close", "filtered", "backlog-full", "listener-closed", "discards-unaccepted", "accept-after-close", "read-eof"],
+    rule="random histories (15..75 steps) on a real listener (loopback socket) fed through its own dispatch path: datagrams from 6 remotes (same IP / different port and vice versa) with tagged "
+         "payloads, Accept, reads with short and long slices, connection Close, listener Close; backlogs 0(=128),1,2,3,5,128, accept filters on the first byte. non-trivial = a datagram creates a "
+         "connection (also a fresh one after Close), is filtered, hits a full backlog or a closed listener, listener Close discards unaccepted connections, Accept after Close, end-of-file; "
+         "distinct = hash of the ops text",
+    design_ref="DESIGN.md 7.11", technique="Lean 4 proof: the listener's table/backlog/per-connection FIFO model refines the per-remote spec by induction over histories; isolation and one-connection-per-remote as invariants; differential correspondence on a real listener",
+    level_text='Theorems (Props/C11.lean): listener_refines_spec — for every backlog and accept filter and EVERY history of datagram arrivals from any remotes, Accept, Read, connection Close and listener Close, the model of the listener (connection table, backlog queue, per-connection packet FIFO) answers exactly as the per-remote spec of Spec/Listener.lean; one_conn_per_remote (at most one table entry per remote, pointing to an open connection of that remote, in every reachable state), delivered_to_own_conn (a datagram never touches a connection of another remote), first_datagram_creates_one (creation iff the listener accepts, the filter admits and the backlog has room; otherwise nothing changes), fresh_conn_after_close. The model is tied to udp/conn.go by differential runs on a real listener fed through its own dispatchMsg path: Accept/Read answers, connection table and backlog length after every step.', level_note='Trusted: Lean kernel + standard axioms (no Classical.choice); reading of C11 in Spec/Listener.lean; the kernel socket is not in the loop (datagrams are handed to listener.dispatchMsg), batch reads are not exercised; sequential histories (the concurrent part of the listener is C12); the per-connection buffer is a packet FIFO (C06).',
+    trusted=LEAN_TB + ["hand-written Lean model Model/Listener.lean validated against udp.listener/Conn: answers of Accept/Read (L1) and the connection table and backlog length (L2)",
+                       "datagrams are handed to listener.dispatchMsg (the read loop's own path), not sent through the kernel; the kernel socket is assumed in-order"],
+    assumptions=["sequential histories; concurrent Accept/Close interleavings are C12's subject", "the per-connection buffer is a packet FIFO (C06)"])
+
+def _yield_k(rel, funcs, kinds):
+    from . import core
+    return lambda work: core.yield_overlay(work, rel, funcs, kinds)
+
+
+seq(prop="C12", lean_targets=["TransportVerif.Props.C12"], pkg="udp", run="^TestVerifLife$", component="life",
+    files=["life_h_test.go"], quick_n=400, thorough_n=20000, search_n=2000,
+    variants=[dict(overlay_fn=_yield_k("udp/conn.go", ["Accept", "Close"], "select,lock,wait,wgadd"))],
+    nontrivial=["accept-takes-after-close-began", "discards-unaccepted", "socket-closes", "waits-for-readloop", "wakes-acceptors", "arrival-creates", "accept-parks"],
+    rule="controlled schedules on a real listener (loopback socket): 0..2 connections already accepted, 0..2 waiting in the backlog, then 0..2 Accept callers, a listener Close, Close of accepted "
+         "connections and datagram arrivals from new remotes interleaved at the yield points of Accept (select), listener Close and Conn.Close (lock, wait); after every grant the socket state, "
+         "backlog length, table size and every goroutine's position are compared with the model; at quiescence the implementation's own final state is judged: socket closed iff the listener and "
+         "every connection returned by Accept are closed. non-trivial = Accept takes a connection after Close began, Close discards unaccepted connections, the step that closes the socket, a Close "
+         "waiting for the read loop, Close waking blocked Accepts, arrivals; distinct = hash of the schedule",
+    design_ref="DESIGN.md 7.12", technique="Lean 4 proof: step invariant of the reference-count transition system (socket closed iff listener and all handed-out connections closed, counter never negative); schedules replayed on the real listener under the controlled scheduler",
+    level_text="PENDING", level_note="PENDING",
+    trusted=LEAN_TB + ["hand-written transition system Model/ListenerLife.lean tied to udp/conn.go by controlled-schedule runs on a real listener compared after every grant",
+                       "the read loop and the closer goroutine are unmanaged: their reaction to the count reaching zero is observed at quiescence; the kernel socket is only asked whether it is closed",
+                       "vrewrite, cosched"],
+    assumptions=["at most one Close caller per object in the concurrent phase (idempotence is exercised sequentially afterwards)", "port re-bindability and 'no goroutine left' are observed by the harness only"])
+
 ALL = SEQ
